@@ -98,7 +98,7 @@ func c11Literal(form int, body string) string {
 
 type c11Case struct {
 	choices []int
-	ctx     int // 0: the literal alone on its line; 1: followed on the same line by + "Z" (the token must end where it ends)
+	ctx     int // 0: the literal alone on its line; 1: followed on the same line by + "Z" (the token must end where it ends); 2: ("..." and `...` only) as the literal pattern of a string match on the same literal - pattern and expression must denote the same text
 	form    int
 	body    string
 	want    string
@@ -107,6 +107,13 @@ type c11Case struct {
 }
 
 var c11Special = []string{"\\", "\"", "`", "{", "}", "%", "$", "n", "t", "\n", "x"}
+
+func c11Ctx(c *explore.Chooser, form int) int {
+	if form == c11Str || form == c11Raw {
+		return c.Choose(3)
+	}
+	return c.Choose(2)
+}
 
 // driver 1: every string of length <= maxLen over the special alphabet, in each form
 func c11SpecialDriver(maxLen int) func(c *explore.Chooser) *c11Case {
@@ -117,7 +124,7 @@ func c11SpecialDriver(maxLen int) func(c *explore.Chooser) *c11Case {
 		for i := 0; i < n; i++ {
 			b.WriteString(c11Special[c.Choose(len(c11Special))])
 		}
-		return &c11Case{form: form, body: b.String(), kind: "special-alphabet", ctx: c.Choose(2)}
+		return &c11Case{form: form, body: b.String(), kind: "special-alphabet", ctx: c11Ctx(c, form)}
 	}
 }
 
@@ -136,7 +143,7 @@ func c11CharDriver() func(c *explore.Chooser) *c11Case {
 		if esc {
 			body = "a\\" + ch + "b"
 		}
-		return &c11Case{form: form, body: body, kind: "single-character", ctx: c.Choose(2)}
+		return &c11Case{form: form, body: body, kind: "single-character", ctx: c11Ctx(c, form)}
 	}
 }
 
@@ -186,6 +193,9 @@ func checkC11(c *core.Ctx) {
 			}
 			if cur.ctx == 1 {
 				text += "Z"
+			}
+			if cur.ctx == 2 {
+				text = "hit:" + text
 			}
 			key := fmt.Sprint(cur.form, cur.ctx) + "|" + cur.body
 			if seen[key] {
@@ -250,6 +260,10 @@ func c11Program(cs *c11Case, k int) gobatch.Prog {
 	lit := c11Literal(cs.form, cs.body)
 	if cs.ctx == 1 {
 		lit += " + \"Z\""
+	}
+	if cs.ctx == 2 {
+		fmt.Fprintf(&sb, "  let v = match %s with\n          | %s -> \"hit:\"\n          | _ -> \"miss:\"\n  frt.Printf1 \"%%s\" v\n  frt.Printf1 \"%%s\" %s\n", lit, lit, lit)
+		return gobatch.Prog{Defs: sb.String(), Run: fmt.Sprintf("run_%d", k)}
 	}
 	fmt.Fprintf(&sb, "  let v = %s\n  frt.Printf1 \"%%s\" v\n", lit)
 	return gobatch.Prog{Defs: sb.String(), Run: fmt.Sprintf("run_%d", k)}
